@@ -151,4 +151,25 @@ def aFree (a : Arena) (i n : Nat) (allCommitted : Bool) (mode : Nat) (needsRecom
 /-- free blocks that are recorded as committed are accessible -/
 def AInv (a : Arena) : Prop := ∀ k, a.inuse k = false → a.committed k = true → a.os k = true
 
+inductive AOp where
+  | alloc (i n : Nat) (commit osOk : Bool)
+  | free (i n : Nat) (allCommitted : Bool) (mode : Nat) (needsRecommit osGone : Bool)
+  | purge (i n : Nat) (needsRecommit osGone : Bool)
+
+def aStep (a : Arena) : AOp → Arena
+  | .alloc i n c ok => (aAlloc a i n c ok).1
+  | .free i n allc mode nr og => aFree a i n allc mode nr og
+  | .purge i n nr og => aPurge a i n nr og
+
+/-- what the caller (a segment being freed) and the OS layer guarantee for one step: `allCommitted` is passed only for a range that
+    is accessible, and access is revoked by a purge only when a re-commit is reported as needed -/
+def AOp.ok (a : Arena) : AOp → Prop
+  | .alloc _ _ _ _ => True
+  | .free i n allc _ nr og => (og = true → nr = true) ∧ (allc = true → ∀ k, i ≤ k → k < i + n → a.os k = true)
+  | .purge _ _ nr og => og = true → nr = true
+
+def AOk : Arena → List AOp → Prop
+  | _, [] => True
+  | a, op :: ops => op.ok a ∧ AOk (aStep a op) ops
+
 end CommitM
